@@ -310,6 +310,17 @@ struct Runner {
         }
     }
 
+    // In a build without OpenMP (-fno-openmp: IS_SEQUENTIAL, the locks are no-ops) the "concurrent" phases are executed
+    // task after task by the main thread: the non-parallel #else branch of insert meets the same model.
+    template <typename F>
+    static void run_tasks(int n, F&& f) {
+#ifdef _OPENMP
+        sim::parallel(n, f);
+#else
+        for (int t = 0; t < n; t++) f(t);
+#endif
+    }
+
     void execute(const Workload& wl) {
         Rng prng((uint64_t)wl.param("probe_seed", 1));
         std::vector<Key> probes;
@@ -317,11 +328,11 @@ struct Runner {
         for (const Phase& ph : wl.phases) {
             if (ph.kind == 1) {
                 ins.assign(ph.tasks.size(), {});
-                sim::parallel((int)ph.tasks.size(), [&](int t) { run_inserts(t, ph.tasks[t]); });
+                run_tasks((int)ph.tasks.size(), [&](int t) { run_inserts(t, ph.tasks[t]); });
                 if (g_res && !g_res->ok) return;
                 check_insert_phase();
             } else if (ph.kind == 2) {
-                sim::parallel((int)ph.tasks.size(), [&](int t) { run_queries(t, ph.tasks[t]); });
+                run_tasks((int)ph.tasks.size(), [&](int t) { run_queries(t, ph.tasks[t]); });
             } else {
                 for (auto& t : ph.tasks) run_sequential(t);
             }
